@@ -180,15 +180,16 @@ def _refuses(fn: ast.FunctionDef, refuse_values, final_prefix: str):
     final call in one arm and positively nested `if`s are normalised too) in front of `return <final_prefix>…`.
     Returns (Lean Bool expression "the call is refused", the statements between the guards and the final return)."""
     def walk(stmts, env):
-        # -> Lean expression: "refused" for this statement list (which must end in the final call or a refusal on every path)
-        clauses, middle = [], []
+        # -> (Lean expression "refused" for this statement list, the non-guard statements met on the way); an `if` is followed
+        # into both arms, each continued with the statements after it (so guard clauses, `if … else`, positively nested `if`s and
+        # early returns all get their meaning); the list must end in the final call or in a refusal on every path
+        middle = []
         for i, st in enumerate(stmts):
             if _is_log(st):
                 continue
             if isinstance(st, ast.Assign) and len(st.targets) == 1 and isinstance(st.targets[0], ast.Name):
                 val = _Inline(env).visit(ast.parse(ast.unparse(st.value), mode="eval").body)
-                if ast.unparse(val).startswith(("self.parent_terminal.parent.user_session_manager", "self.parent_terminal.parent")) \
-                        and not isinstance(val, ast.Call):
+                if ast.unparse(val).startswith("self.parent_terminal.parent") and not isinstance(val, ast.Call):
                     env = dict(env, **{st.targets[0].id: val})
                 else:
                     middle.append(ast.unparse(st))
@@ -199,26 +200,18 @@ def _refuses(fn: ast.FunctionDef, refuse_values, final_prefix: str):
             if isinstance(st, ast.Return):
                 v = ast.unparse(st.value) if st.value is not None else "None"
                 if v in refuse_values:
-                    return "(" + " || ".join(clauses + ["true"]) + ")", middle
+                    return "true", middle
                 if v.startswith(final_prefix):
-                    middle.append("return " + v)
-                    return "(" + " || ".join(clauses + ["false"]) + ")", middle
+                    return "false", middle + ["return " + v]
                 raise ValueError(f"unrecognised return: {v}")
             if isinstance(st, ast.If):
                 t = _tr_test(st.test, env)
-                body_r, body_m = walk(st.body, env)
-                if st.orelse:
-                    else_r, else_m = walk(st.orelse, env)
-                    middle += body_m + else_m
-                    return "(" + " || ".join(clauses + [f"(if {t} then {body_r} else {else_r})"]) + ")", middle
-                # no else: the body must end every path itself (guard clause) or fall through (positive nesting is not accepted here)
-                rest_r, rest_m = walk(stmts[i + 1:], env)
-                middle += body_m + rest_m
-                return "(" + " || ".join(clauses + [f"(if {t} then {body_r} else {rest_r})"]) + ")", middle
+                then_r, then_m = walk(list(st.body) + list(stmts[i + 1:]), env)
+                else_r, else_m = walk(list(st.orelse) + list(stmts[i + 1:]), env)
+                return f"(if {t} then {then_r} else {else_r})", middle + [x for x in then_m + else_m if x not in middle]
             raise ValueError(f"unrecognised statement: {ast.unparse(st)}")
-        # fell off the end: Python returns None
-        if "None" in refuse_values:
-            return "(" + " || ".join(clauses + ["true"]) + ")", middle
+        if "None" in refuse_values:     # fell off the end: Python returns None
+            return "true", middle
         raise ValueError("falls off the end")
     return walk(_body(fn), {})
 
@@ -251,8 +244,8 @@ def _handle_gen() -> str:
     cls_default = [f"{c.name}.is_active = {ast.unparse(st.value)}" for c in ast.walk(tree) if isinstance(c, ast.ClassDef)
                    for st in c.body if isinstance(st, ast.AnnAssign) and ast.unparse(st.target) == "is_active" and st.value is not None]
     writes = list(ACTIVE_WRITES)
-    lm = [x for x in lm if x.startswith(("return", "?"))]
-    rm = [x for x in rm if x.startswith(("return", "?"))]
+    lm = sorted({x for x in lm if x.startswith(("return", "?"))})
+    rm = sorted({x for x in rm if x.startswith(("return", "?"))})
     return f"""/-- `LocalTerminalConnection.execute` refuses (answers `None`) — translated from its guard clauses; `loc` = uuid of the node's
 current local session, `cid` = `self.connection_uuid` -/
 def localExecuteRefuses (running active : Bool) (loc : Option Nat) (cid : Nat) : Bool := {lr}
